@@ -6,6 +6,7 @@ import (
 	"net"
 	"net/http"
 	"net/url"
+	"strings"
 	"time"
 
 	"google.golang.org/grpc/codes"
@@ -853,4 +854,273 @@ func vfWatchdog(f func()) {
 	case <-time.After(8 * time.Second):
 		panic(vfCheckFailed{"deadlock: the call did not complete"})
 	}
+}
+
+// (from h_params.go)
+const refB64URL = "ABCDEFGHIJKLMNOPQRSTUVWXYZabcdefghijklmnopqrstuvwxyz0123456789-_"
+
+func refB64Val(c byte, urlAlphabet bool) int {
+	switch {
+	case c >= 'A' && c <= 'Z':
+		return int(c - 'A')
+	case c >= 'a' && c <= 'z':
+		return int(c-'a') + 26
+	case c >= '0' && c <= '9':
+		return int(c-'0') + 52
+	case !urlAlphabet && c == '+', urlAlphabet && c == '-':
+		return 62
+	case !urlAlphabet && c == '/', urlAlphabet && c == '_':
+		return 63
+	}
+	return -1
+}
+
+// refProtoJSONBytes: the proto3-JSON rule for bytes in text form: URL alphabet iff the text
+// contains '-' or '_', otherwise standard; padding expected iff len%4 == 0.
+func refProtoJSONBytes(s string) ([]byte, bool) {
+	urlAlpha := false
+	for i := 0; i < len(s); i++ {
+		if s[i] == '-' || s[i] == '_' {
+			urlAlpha = true
+		}
+	}
+	body := s
+	if len(s)%4 == 0 {
+		// padded form: strip up to two '='
+		for k := 0; k < 2 && len(body) > 0 && body[len(body)-1] == '='; k++ {
+			body = body[:len(body)-1]
+		}
+	}
+	if len(body)%4 == 1 {
+		return nil, false
+	}
+	var out []byte
+	var acc uint32
+	bits := 0
+	for i := 0; i < len(body); i++ {
+		v := refB64Val(body[i], urlAlpha)
+		if v < 0 {
+			return nil, false
+		}
+		acc = acc<<6 | uint32(v)
+		bits += 6
+		if bits >= 8 {
+			bits -= 8
+			out = append(out, byte(acc>>uint(bits)))
+			acc &= 1<<uint(bits) - 1
+		}
+	}
+	if acc != 0 {
+		return nil, false // non-zero trailing bits: strict decoders reject; larking may accept (unspecified)
+	}
+	return out, true
+}
+
+// (from h_entry.go)
+func vfParseTrailerBlock(b []byte) map[string]string {
+	out := map[string]string{}
+	for _, line := range strings.Split(string(b), "\r\n") {
+		if line == "" {
+			continue
+		}
+		k, v, ok := strings.Cut(line, ": ")
+		if !ok {
+			out["<malformed>"] = line
+			continue
+		}
+		out[k] = v
+	}
+	return out
+}
+
+// (from h_httpstatus.go)
+// refTwirpCode: Twirp v7 error-code table keyed by the canonical gRPC code.
+var refTwirpCode = [17]string{"", "canceled", "unknown", "invalid_argument", "deadline_exceeded", "not_found", "already_exists",
+	"permission_denied", "resource_exhausted", "failed_precondition", "aborted", "out_of_range", "unimplemented", "internal",
+	"unavailable", "dataloss", "unauthenticated"}
+
+// (from h_match.go)
+func vfMethodName(i int) string {
+	if i == 0 {
+		return "/vf.S/M0"
+	}
+	return "/vf.S/M1"
+}
+
+// (from h_match.go)
+type vfBuilt struct {
+	root  *path
+	rules []vfRule   // including implicit rules
+	tmpls []*refTmpl // parsed reference templates, parallel to rules
+}
+
+// (from h_match.go)
+// vfBuild registers the rules in the given order with the real addRule.
+func vfBuild(set []vfRule, order []int) *vfBuilt {
+	in := schemaRoute()
+	out := newFakeMD("vf.Resp", strField("r"))
+	descs := []*fakeMethod{
+		{full: "vf.S.M0", in: in, out: out},
+		{full: "vf.S.M1", in: in, out: out},
+	}
+	b := &vfBuilt{root: newPath()}
+	var all []vfRule
+	for i := 0; i < 2; i++ {
+		all = append(all, vfRule{i, "*", vfMethodName(i)})
+	}
+	for _, k := range order {
+		all = append(all, set[k])
+	}
+	for _, r := range all {
+		rule := vfHTTPRule(r.verb, r.tmpl)
+		if r.tmpl == vfMethodName(r.m) {
+			rule.Body = "*"
+		}
+		if err := b.root.addRule(rule, descs[r.m], vfMethodName(r.m)); err != nil {
+			vfFail("rule set of the family rejected by addRule: " + r.tmpl)
+		}
+		t, st := refParseTemplate(r.tmpl)
+		if st != refValid {
+			vfFail("rule set of the family is not valid per the reference grammar: " + r.tmpl)
+		}
+		b.rules = append(b.rules, r)
+		b.tmpls = append(b.tmpls, t)
+	}
+	return b
+}
+
+// (from h_match.go)
+func vfIdentityOrder(n int) []int {
+	o := make([]int, n)
+	for i := range o {
+		o[i] = i
+	}
+	return o
+}
+
+// (from h_match.go)
+// vfParamsMatch: the params with a field path are exactly the rule's variables with the reference
+// captures (order is not part of the claim); params without a field path carry no value.
+func vfParamsMatch(ps params, t *refTmpl, caps []string) bool {
+	used := make([]bool, len(t.vars))
+	for _, p := range ps {
+		if len(p.fds) == 0 {
+			continue
+		}
+		f := vfParamField(p)
+		val := p.val.String()
+		found := false
+		for k, v := range t.vars {
+			if !used[k] && v.field == f && caps[k] == val {
+				used[k] = true
+				found = true
+				break
+			}
+		}
+		if !found {
+			return false
+		}
+	}
+	for _, u := range used {
+		if !u {
+			return false
+		}
+	}
+	return true
+}
+
+// (from h_match.go)
+func vfVerbOK(r vfRule, verb string) bool { return r.verb == "*" || r.verb == verb }
+
+// (from h_match.go)
+// vfCheckSound: whatever match dispatches is covered by a rule of that method (liberal ':').
+func vfCheckSound(b *vfBuilt, route, verb string) {
+	m, ps, err := b.root.match(route, verb)
+	if err != nil {
+		vfCover("not-dispatched")
+		return
+	}
+	vfCover("dispatched")
+	segs, ok := refSplit(route)
+	vfCheck(ok, "dispatched although the path is not a sequence of non-empty segments")
+	covered := false
+	for i, r := range b.rules {
+		if vfMethodName(r.m) != m.name || !vfVerbOK(r, verb) {
+			continue
+		}
+		mok, caps := refMatch(b.tmpls[i], segs, false)
+		if mok && vfParamsMatch(ps, b.tmpls[i], caps) {
+			covered = true
+			if len(b.tmpls[i].vars) > 0 {
+				vfCover("captured")
+			}
+			break
+		}
+	}
+	vfCheck(covered, "request dispatched to a method none of whose rules covers verb+path with these captures")
+}
+
+// (from h_match.go)
+// vfCheckComplete: a strictly matching rule implies dispatch; literal beats wildcard.
+func vfCheckComplete(b *vfBuilt, route, verb string) {
+	segs, ok := refSplit(route)
+	if !ok {
+		return
+	}
+	strictHit := make([]bool, len(b.rules))
+	any := false
+	for i, r := range b.rules {
+		if !vfVerbOK(r, verb) {
+			continue
+		}
+		if mok, _ := refMatch(b.tmpls[i], segs, true); mok {
+			strictHit[i] = true
+			any = true
+		}
+	}
+	if !any {
+		vfCover("no-rule-matches")
+		return
+	}
+	m, _, err := b.root.match(route, verb)
+	vfCheck(err == nil, "a registered rule matches verb and path but the request was not dispatched")
+	vfCover("dispatched")
+	// the chosen method owns a matching rule that is not literal-dominated by another method's rule
+	owns, undominated := false, false
+	for i, r := range b.rules {
+		if vfMethodName(r.m) != m.name || !vfVerbOK(r, verb) {
+			continue
+		}
+		if mok, _ := refMatch(b.tmpls[i], segs, false); !mok {
+			continue
+		}
+		owns = true
+		dom := false
+		for j, r2 := range b.rules {
+			if r2.m != r.m && strictHit[j] && refDominates(b.tmpls[j], b.tmpls[i]) {
+				dom = true
+			}
+			if r2.m != r.m && strictHit[j] && refDominates(b.tmpls[i], b.tmpls[j]) {
+				vfCover("literal-won")
+			}
+		}
+		if !dom {
+			undominated = true
+		} else {
+			vfCover("dominated-candidate")
+		}
+	}
+	vfCheck(owns, "dispatched to a method that owns no matching rule")
+	vfCheck(undominated, "a wildcard/variable rule won over another method's literal rule")
+}
+
+// (from h_params.go)
+func refTrimJSONSpace(s string) string {
+	for len(s) > 0 && (s[0] == ' ' || s[0] == '\t' || s[0] == '\n' || s[0] == '\r') {
+		s = s[1:]
+	}
+	for len(s) > 0 && (s[len(s)-1] == ' ' || s[len(s)-1] == '\t' || s[len(s)-1] == '\n' || s[len(s)-1] == '\r') {
+		s = s[:len(s)-1]
+	}
+	return s
 }
